@@ -117,6 +117,11 @@ def oracle_one(case: dict[str, Any], cfg: EnOptConfig, res: Any, x: np.ndarray, 
     if nsucc == 0:
         check(bool(np.all(np.isnan(res.functions.objectives))) and bool(np.isnan(res.functions.weighted_objective)),
               "all-failed-not-nan", "all realizations failed but finite functions reported", case)
+        check(np.shape(res.functions.objectives) == (k_n,) and (not c_n or np.shape(res.functions.constraints) == (c_n,)), "all-failed-shape",
+              f"all realizations failed: objectives {np.shape(res.functions.objectives)}, constraints "
+              f"{None if res.functions.constraints is None else np.shape(res.functions.constraints)}, expected ({k_n},) and ({c_n},)", case)
+        if c_n:
+            check(bool(np.all(np.isnan(res.functions.constraints))), "all-failed-not-nan", "all realizations failed but finite constraints reported", case)
         return
     values = []
     comparable = True
